@@ -119,6 +119,7 @@ type Expect struct {
 	Miss   []JPos  `json:"miss,omitempty"`
 	Missm  []JPos  `json:"missm,omitempty"`
 	Hs     []string `json:"hs,omitempty"`
+	Pp     []JPos   `json:"pp,omitempty"`
 }
 
 type Line struct {
